@@ -178,7 +178,9 @@ def buddy_plan():
             plan.append((k, n, 16, tier))
     for n, c in ((4, 4), (3, 4), (8, 8), (7, 8), (5, 8)):
         for k in HEAVY:
-            plan.append((k, n, c, "quick" if (n, c) in ((4, 4), (3, 4), (7, 8)) else "thorough"))
+            # attempted only: none of these closes (DESIGN.md 9.1); kept in the thorough tier so
+            # that the attempt is repeated and reported, never claimed
+            plan.append((k, n, c, "thorough"))
     for n in (128, 127, 77, 64, 65):
         for k in LIGHT:
             plan.append((k, n, 128, "thorough"))
